@@ -21,7 +21,6 @@ package memdb
 import (
 	"encoding/json"
 	"errors"
-	"fmt"
 	"sync"
 
 	adapter "github.com/tinode/chat/server/db"
